@@ -124,4 +124,7 @@ def world_class(w):
         tags.append("dir")
     if any(s == 0 for s in sizes):
         tags.append("empty-file")
+    if any(isinstance(c, str) and c.startswith(("z", "holes"))
+           for c in w.get("cids") or ()):
+        tags.append("zero-regions")
     return "+".join(tags)
